@@ -7,14 +7,15 @@ ROWKINDS = [(None, None), (None, "x"), (0, None), (0, "x"), (1, None), (1, "x")]
 ATOMS = {
     "a=0": "a = 0", "a=1": "a = 1", "a<>0": "a <> 0", "anull": "a is null", "anotnull": "a is not null",
     "b=x": "b = {x}", "b<>x": "b <> {x}", "true": "1 = 1", "false": "1 = 0", "a=null": "a = null",
+    "eqnull_bx": "equal_null(b, {x})", "eqnull_an": "equal_null(a, null)",
 }
 SETS = {"a0": "a = 0", "a1": "a = 1", "anull": "a = null", "bx": "b = {x}", "bnull": "b = null"}
 # what the abstract text value 'x' is in one behaviour: plain, text that looks like a session variable reference (LIM is set
 # on the connection), text with a quote, text that looks like a placeholder
-XS = ["x", "x", "$lim", "it's x", "50%s"]
+XS = ["x", "x", "$lim", "it's x", "50%s", "please call back"]
 # the value as a literal expression of the statement text; "$lim" is spelled by concatenation because $<word> inside a literal is
 # the recorded defect C15.ref_in_string_literal
-XLIT = {"x": "'x'", "$lim": "'$' || 'lim'", "it's x": "'it''s x'", "50%s": "'50%s'"}
+XLIT = {"x": "'x'", "$lim": "'$' || 'lim'", "it's x": "'it''s x'", "50%s": "'50%s'", "please call back": "'please call back'"}
 
 
 class Render:
@@ -113,7 +114,8 @@ class C04(Prop):
 
         global _FS, _N
         if _FS is None:
-            _FS = fakesnow.instance.FakeSnow()
+            # a no-op pattern that no statement of this driver STARTS with; one of the text values mentions it
+            _FS = fakesnow.instance.FakeSnow(nop_regexes=["call back"])
             _FS.connect("DB1", "S0")
         _N += 1
         sc = f"S{_N}"
@@ -198,7 +200,7 @@ class C04(Prop):
             target = "t" if what in ("addcolumn", "commenton", "setcomment") else base
             name = {1: target, 2: f"{sc}.{target}", 3: f"db1.{sc}.{target}"}[q]
             fq = f"DB1.{sc}.{phys}"
-            if what in ("createtable", "createview", "droptable", "dropview"):
+            if what in ("createtable", "createtable_cmt", "createview", "droptable", "dropview"):
                 for stmt in (f"drop view if exists {fq}", f"drop table if exists {fq}"):
                     try:
                         raw.execute(stmt)
@@ -210,6 +212,7 @@ class C04(Prop):
                 raw.execute(f"create view {fq} as select 1 as x")
             sql = {
                 "createtable": f"create table {name} (x int)",
+                "createtable_cmt": f"create table {name} (x int, s varchar(8)) comment = 'made here'",
                 "createview": f"create view {name} as select 1 as x",
                 "droptable": f"drop table {name}",
                 "dropview": f"drop view {name}",
